@@ -141,6 +141,29 @@ def cls_efforts(rnd):
         if rnd.random() < 0.5:
             text = re.sub(r"\n\s*allocate [^\n]+", "", text, count=1)
         return m, text
+    if k < 0.45 and k >= 0.35:
+        # numbers with several hundred digits (float('inf')) where a duration or a count is expected
+        big9 = "9" * rnd.choice([310, 400])
+        what = rnd.randrange(5)
+        if what == 0:
+            text = re.sub(r"effort \d+(min|h|d)", "effort %sh" % big9, text, count=1)
+        elif what == 1:
+            text = re.sub(r"(depends [^\n{]+?)(\n| \{[^\n]*\n)", r"\1 { gapduration %sh }\n" % big9, text, count=1)
+        elif what == 2:
+            text = re.sub(r"(resource r0 \"r0\" \{\n)", r"\1  limits { dailymax %sh }\n" % big9, text, count=1)
+        elif what == 3:
+            text = re.sub(r'(timezone "Etc/UTC"\n)', r"\1  timingresolution %smin\n" % big9, text, count=1)
+        else:
+            text = re.sub(r"(depends [^\n{]+?)(\n| \{[^\n]*\n)", r"\1 { gaplength %sh }\n" % big9, text, count=1)
+        return m, text
+    if k < 0.55 and k >= 0.45:
+        # absences on the last day of the calendar, in an ordinary project
+        line = rnd.choice(['vacation "x" 9999-12-31\n', 'leaves holiday "x" 9999-12-31\n'])
+        if rnd.random() < 0.5:
+            text = re.sub(r"(resource r0 \"r0\" \{\n)", r"\1  %s 9999-12-31\n" % rnd.choice(["vacation", "leaves annual"]), text, count=1)
+        else:
+            text = re.sub(r"(\}\n)", r"\1" + line, text, count=1)
+        return m, text
     if k < 0.35:
         # a blocking booking of absurd length
         text = re.sub(r"(resource r0 \"r0\" \{\n)", r'\1  booking "B" %s +%s\n' % (m["start"].strftime("%Y-%m-%d"), rnd.choice(["9999999999d", "99999999h", "0min", "1d"])), text, count=1)
@@ -302,6 +325,23 @@ def cls_deep(rnd):
     """deeply nested task trees and long dependency chains (recursion in the transformer, the builder, the roll-up)"""
     n = rnd.choice([30, 120, 300, 700])
     L = ['project p "P" 2025-03-03 +4w {', '  timezone "Etc/UTC"', "}", 'resource r "r" {}']
+    k = rnd.random()
+    if k < 0.2:
+        # resource groups nested 8..20 deep (finishScheduling recursed twice per level: exponential)
+        depth = rnd.choice([8, 12, 16, 18, 20])
+        for i in range(depth):
+            L.append('%sresource g%d "g%d" {' % (" " * i, i, i))
+        L.append('resource leaf "leaf" {}')
+        L.extend("}" for _ in range(depth))
+        L.append('task a "a" { effort 4h allocate leaf }')
+        return dict(res=60, giant=False), "\n".join(L) + "\n"
+    if k < 0.4:
+        # a long acyclic chain that ends in an ALAP anchor with a fixed end (backward propagation along the chain)
+        n = rnd.choice([40, 100, 200, 1200])
+        for i in range(n):
+            L.append('task c%d "c%d" { effort 1h allocate r %s}' % (i, i, ("depends c%d " % (i - 1)) if i else ""))
+        L.append('task z "z" { effort 1h allocate r scheduling alap end 2025-03-28 depends c%d }' % (n - 1))
+        return dict(res=60, giant=False), "\n".join(L) + "\n"
     if rnd.random() < 0.6:
         for i in range(n):
             L.append("%stask n%d \"n%d\" {" % (" " * (i % 40), i, i))
@@ -524,7 +564,7 @@ def run_one(name, m, text, acc, cs, job):
                     acc.violation("C11", "scheduled-without-dates", dict(task=t.fullId, sc=sc), [], dict(rp, clause="scheduled-without-dates"))
                 elif st > en:
                     acc.violation("C11", "scheduled-start-after-end", dict(task=t.fullId, start=st, end=en), [], dict(rp, clause="scheduled-start-after-end"))
-                elif ps is not None and pe is not None and (st < ps or en > pe + timedelta(seconds=p.attributes.get("scheduleGranularity", 3600))):
+                elif ps is not None and pe is not None and (st < ps or en > pe):
                     pinned = t.provided("start", sc) or t.provided("end", sc)
                     if pinned and not t.get("effort", sc) and (st < ps or en > pe):
                         # a pinned zero-length task has no work that could run over: its date must lie inside [start, end]
